@@ -110,7 +110,7 @@ def c04_job(chk, rng, i):
         inputs.append({"sources": [bytes(s)], "sched": sched})
     tb = rotate(i // 4, TABLES8)
     if shared:
-        tb = rotate(i // 16, ["-Cfe", "-Cem", "-CFe", "-Ce"])
+        tb = rotate(i // 16, ["-Cfe", "-Cm", "-Cem", "-CFe", "-C", "-Ce"])
     inter = rotate(i // 2, [None, True, False])
     if ("f" in tb or "F" in tb) and inter is True:
         inter = False       # documented: -Cf/-CF cannot be interactive
